@@ -93,6 +93,34 @@ def impl_lr(bl, names, sub):
     except Exception as e:
         return 'EXN F|%s' % type(e).__name__
 
+def real_streams(bl, inputs):
+    """for each input: (input, verdict of parsesingle, terminal names the TOP-LEVEL tokenizer delivered to the engine).
+    The names are taken from `ttype`, the classification the tokenizer decided on - what the engine is told must be that."""
+    T = bl.tokenizer.tokenizer
+    orig = T.token
+    rec = {}; order = []
+    def token(self):
+        t = orig(self)
+        k = id(self)
+        if k not in rec: rec[k] = []; order.append(k)
+        rec[k].append(getattr(getattr(t, 'ttype', None), 'name', 'None'))
+        return t
+    T.token = token
+    out = []
+    try:
+        for s in inputs:
+            rec.clear(); del order[:]
+            try:
+                r = bl.parsesingle(s); verdict = 'ACC' if r is not None else 'BLANK'
+            except bl.errors.ParsingError as e:
+                # only p_error's messages are verdicts of the engine; the tokenizer's own errors (unterminated quote, here-document) are not
+                verdict = 'REJ' if (e.message.startswith('unexpected token') or e.message == 'unexpected EOF') else 'OTHER'
+            except Exception: verdict = 'OTHER'
+            out.append((s, verdict, list(rec[order[0]]) if order else []))
+    finally:
+        T.token = orig
+    return out
+
 def norm_model(line):
     if line.startswith('EXN PE|'):
         parts = line.split('|')
@@ -206,11 +234,43 @@ def run(ctx):
             elif len(violations) < 25 and not any(v['signature'] == sig for v in violations):
                 violations.append(dict(property=prop, alphabet=aname, mode=mode, tokens=names, signature=sig, impl=i, grammar_says=list(exp),
                                        how='LRParser.parse on a synthetic token source versus an Earley recogniser on the declared grammar'))
+    # ---- the engine on real token streams: what the tokenizer classified is what the grammar decides on ----
+    if not ctx.get('replay') or 'input' in json.load(open(ctx['replay'])):
+        ins = common.dedup(common.corpus_inputs() + common.random_scripts(seed, 1500 if tier == 'quick' else 20000, mutate=1, unsupported=0))
+        if ctx.get('replay'): ins = [json.load(open(ctx['replay']))['input']]
+        # (here-documents are read by the tokenizer from the text; the token-level engine has none)
+        streams = [x for x in real_streams(bl, [s for s in ins if '<<' not in s]) if x[1] in ('ACC', 'BLANK', 'REJ') and all(n in tid for n in x[2])]
+        rl = ['lr\ttop\t%s' % '.'.join(str(tid[n]) for n in names) for _, _, names in streams]
+        rr = []
+        for k in range(0, len(rl), 20000): rr += runner.model_batch(rl[k:k + 20000])
+        for (src, verdict, names), rep in zip(streams, rr):
+            mv = 'ACC' if rep.startswith('ACC') else 'BLANK' if rep.startswith('BLANK') else 'REJ' if rep.startswith('EXN PE') else 'OTHER'
+            classes['real-stream:' + verdict] += 1
+            sig = None
+            if verdict in ('ACC', 'BLANK'):
+                # the real engine accepted this stream: the declared grammar (Lean engine on the regenerated tables, C09_exact) must accept it,
+                # having fetched the same number of tokens
+                if mv != verdict: sig = 'accepts-underivable:real-tokens'
+                elif verdict == 'ACC' and int(rep.split(' ')[1]) != len(names): sig = 'accepts-at-other-prefix:real-tokens'
+                nontrivial += verdict == 'ACC'
+            elif not any(x in src for x in ('$', '`', '<(', '>(', '<<')) and mv != 'REJ':
+                # rejected without nested parsers or here-documents involved: the engine itself rejected
+                sig = 'rejects-derivable:real-tokens'
+            if sig:
+                sig_count[sig] += 1
+                fid = common.match_finding(findings, sig, src)
+                if fid: finding_hits.setdefault(fid, src[:80])
+                elif len(violations) < 25 and not any(v['signature'] == sig for v in violations):
+                    violations.append(dict(property=prop, input=src, tokens=names, signature=sig, impl=verdict, model_engine=rep[:200],
+                                           how='parsesingle on the input with the terminal names (ttype) delivered by the top-level tokenizer recorded; the same '
+                                               'sequence run through the Lean engine on the regenerated tables'))
+        lines = lines + rl
     return dict(evaluations=len(lines), distinct_nontrivial=nontrivial,
                 rule='all token sequences up to length %d over six terminal sub-alphabets (lists/pipelines, if, loops, case, functions/groups, redirections) plus sampled '
                      'longer ones, each in top-level mode (followed by NEWLINE) and in command-substitution mode (followed by RIGHT_PAREN); compared: verdict, number of '
                      'tokens fetched and the full reduction trace of the real engine versus the Lean engine on the regenerated tables, and the verdict versus an '
-                     'independent Earley recogniser; non-trivial = accepted sentences' % maxlen,
+                     'independent Earley recogniser; plus the engine on REAL token streams: corpus and generated scripts are parsed with the terminal names (ttype) the '
+                     'top-level tokenizer delivered recorded, and the Lean engine must reach the same verdict on that sequence; non-trivial = accepted sentences' % maxlen,
                 samples=[' '.join(m[2]) for m in meta[:2] + meta[-2:]],
                 violations=violations, finding_hits=finding_hits, corr_broken=corr_broken, classes=dict(classes),
                 exhaustive=True, extra=dict(signature_counts=dict(sig_count)))
